@@ -478,8 +478,10 @@ char *FUNC(generate)(jwt_common_t *__cmd)
 	jwt->alg = config.alg;
 	jwt->key = config.key;
 
-	if (jwt_head_setup(jwt))
-		return NULL; // LCOV_EXCL_LINE
+	if (jwt_head_setup(jwt)) {
+		jwt_copy_error(__cmd, jwt);
+		return NULL;
+	}
 
 	out = jwt_encode_str(jwt);
 	jwt_copy_error(__cmd, jwt);
